@@ -82,22 +82,26 @@ type ExpSim struct {
 	EvalErrSeq int // log length when the evaluator returned the injected error, -1 never
 	Fired      map[string]int
 	// per evaluation observations
-	EvalPops      []*genetics.Population
-	EvalTrial     []int
-	EvalGen       []int
-	EvalOrgs      [][]*genetics.Organism
-	EvalOrgGens   [][]int
-	EvalTopoOK    []bool
-	curTrial      int
-	curGen        int
-	offspring     int
-	evalCalls     int
-	startTopo     string
-	timers        []*time.Timer
-	SimElapsed    time.Duration
-	Exp           *experiment.Experiment
-	Err           error
-	fakeClock     bool
+	EvalPops    []*genetics.Population
+	EvalTrial   []int
+	EvalGen     []int
+	EvalOrgs    [][]*genetics.Organism
+	EvalOrgGens [][]int
+	EvalTopoOK  []bool
+	curTrial    int
+	curGen      int
+	offspring   int
+	evalCalls   int
+	startTopo   string
+	timers      []*time.Timer
+	SimElapsed  time.Duration
+	Exp         *experiment.Experiment
+	Err         error
+	fakeClock   bool
+	// NoBubble forces the real clock even when a fake one is available (C17 compares both)
+	NoBubble bool
+	// OnEval, when set, observes the population at every evaluator entry
+	OnEval        func(trial, gen int, pop *genetics.Population)
 	inEpoch       bool
 	speciateCalls int
 }
@@ -151,6 +155,9 @@ func (s *ExpSim) GenerationEvaluate(ctx context.Context, pop *genetics.Populatio
 	}
 	s.EvalOrgGens = append(s.EvalOrgGens, gens)
 	s.EvalTopoOK = append(s.EvalTopoOK, topo)
+	if s.OnEval != nil {
+		s.OnEval(trial, gen, pop)
+	}
 
 	if f := s.faultAt(FaultCancelEvalEntry, trial, gen); f != nil {
 		s.fire(*f)
@@ -242,7 +249,7 @@ func (s *ExpSim) Run(lib func(string, func())) {
 	s.FaultSeq, s.CancelSeq, s.EvalErrSeq = -1, -1, -1
 	s.Fired = map[string]int{}
 	s.startTopo = Canon(s.Start).TopologyDump()
-	s.fakeClock = HasFakeClock && s.Opts.EpochExecutorType == neat.EpochExecutorTypeSequential
+	s.fakeClock = HasFakeClock && !s.NoBubble && s.Opts.EpochExecutorType == neat.EpochExecutorTypeSequential
 	body := func() {
 		base, cancel := context.WithCancel(context.Background())
 		s.Cancel = cancel
